@@ -14,7 +14,9 @@ import (
 )
 
 type diagInfo struct {
-	Headers map[string]string // "error: " -> "LError"
+	Headers   map[string]string // "error: " -> "LError"
+	Added     []string          // headers registered by the CLI through colog.AddHeader
+	Undecided bool              // an AddHeader call with non-constant arguments
 }
 
 const cologPath = "github.com/comail/colog"
@@ -59,6 +61,30 @@ func loadColog(c *Ctx) *diagInfo {
 		c.anchorMissing("T11", cologPath+".defaultHeaders literal")
 		return nil
 	}
+	// headers the CLI adds at start-up: colog.AddHeader("<header>", colog.L…) in cmd/gosk
+	if mp := c.L.Pkg("cmd/gosk"); mp != nil {
+		for _, f := range mp.Syntax {
+			ast.Inspect(f, func(n ast.Node) bool {
+				call, ok := n.(*ast.CallExpr)
+				if !ok || len(call.Args) != 2 {
+					return true
+				}
+				fn, ok := calleeOf(mp.TypesInfo, call).(*types.Func)
+				if !ok || fn.Pkg() == nil || fn.Pkg().Path() != cologPath || fn.Name() != "AddHeader" {
+					return true
+				}
+				h, ok := constStr(mp.TypesInfo, call.Args[0])
+				lvl := constName(mp.TypesInfo, call.Args[1])
+				if ok && lvl != "" {
+					d.Headers[h] = lvl
+					d.Added = append(d.Added, h)
+				} else {
+					d.Undecided = true
+				}
+				return true
+			})
+		}
+	}
 	return d
 }
 
@@ -78,6 +104,30 @@ func ruleT11(c *Ctx) {
 		hasWarn = hasWarn || l == "LWarning"
 	}
 	c.check(hasErr && hasWarn, "T11", "colog.defaultHeaders:levels", "", "no header of level LError / LWarning in the backend")
+	c.check(!d.Undecided, "T11", "cmd/gosk|AddHeader arguments constant", "", "undecided: colog.AddHeader is called with non-constant arguments")
+	// no call that replaces or weakens the table: SetHeaders / SetMinLevel above info
+	if mp := c.L.Pkg("cmd/gosk"); mp != nil {
+		for _, f := range mp.Syntax {
+			ast.Inspect(f, func(n ast.Node) bool {
+				call, ok := n.(*ast.CallExpr)
+				if !ok {
+					return true
+				}
+				fn, ok := calleeOf(mp.TypesInfo, call).(*types.Func)
+				if !ok || fn.Pkg() == nil || fn.Pkg().Path() != cologPath {
+					return true
+				}
+				switch fn.Name() {
+				case "SetHeaders", "ClearHeaders":
+					c.fail("T11", "cmd/gosk|"+fn.Name(), c.L.Pos(call.Pos()), "the header table is replaced at run time; diagnostic levels can no longer be decided statically")
+				case "SetMinLevel":
+					lvl := constName(mp.TypesInfo, call.Args[0])
+					c.check(lvl == "LDebug" || lvl == "LInfo" || lvl == "LTrace" || lvl == "LWarning", "T11", "cmd/gosk|SetMinLevel("+lvl+")", c.L.Pos(call.Pos()), "warnings and errors must not be filtered out")
+				}
+				return true
+			})
+		}
+	}
 	c.floor("T11", 10)
 }
 
